@@ -407,6 +407,7 @@ def _add_addgr_to_aces(acls_: LAcl, parser: ConfigParser) -> None:
                         continue
                     address_ag_o.sequence = 0
                     address_ag_d = address_ag_o.data()
+                    address_ag_d["version"] = str(addr_ace_o.version)
                     _convert_ios_addr(address_ag_d)
                     addr_item_o = Address(**address_ag_d)
                     addr_ace_o.items.append(addr_item_o)
